@@ -30,6 +30,7 @@ func pickDistinct(rng *rand.Rand, from []int, n int) []int {
 // GenFlow draws a random well-formed flow.
 func GenFlow(rng *rand.Rand, o GenOpts) *FlowP {
 	f := &FlowP{OptSeed: rng.Int63(), WrapArgs: rng.Intn(4) != 0, ErrIdent: rng.Intn(3) == 0 && !o.Modifier}
+	f.MutArg = !o.Modifier && rng.Intn(4) == 0
 	maxT := o.MaxTasks
 	if maxT < 2 {
 		maxT = 8
@@ -38,12 +39,26 @@ func GenFlow(rng *rand.Rand, o GenOpts) *FlowP {
 	if rng.Intn(3) == 0 {
 		nT = 1 + rng.Intn(3)
 	}
+	f.Generic = !o.Modifier && rng.Intn(7) == 0
+	usedBasic := map[int]bool{}
 	newType := func() int {
 		k := rng.Intn(NumTypeKinds - 1) // TOther drawn separately
 		if o.Modifier {
 			k = []int{TStruct, TPointer, TNamed, TSlice}[rng.Intn(4)]
 		}
-		f.Types = append(f.Types, TypeSpec{Kind: k})
+		spec := TypeSpec{Kind: k}
+		switch {
+		case o.Modifier:
+		case f.Generic && rng.Intn(2) == 0:
+			spec = TypeSpec{Kind: TParam}
+		case rng.Intn(7) == 0:
+			// a predeclared type; every flow type must be a distinct Go type
+			if x := rng.Intn(len(BasicNames)); !usedBasic[x] {
+				usedBasic[x] = true
+				spec = TypeSpec{Kind: TBasic, X: x}
+			}
+		}
+		f.Types = append(f.Types, spec)
 		return len(f.Types) - 1
 	}
 	consumed := map[int]int{}
@@ -59,6 +74,9 @@ func GenFlow(rng *rand.Rand, o GenOpts) *FlowP {
 		f.EmitNest = f.Emitters >= 2 && rng.Intn(2) == 0
 		f.InstrFlow = rng.Intn(4) != 0
 		f.EmitShared = rng.Intn(3) == 0
+		if rng.Intn(5) == 0 {
+			f.Emitters, f.EmitNest, f.EmitSlice = 2, false, true
+		}
 	}
 	for id := 0; id < nT; id++ {
 		t := TaskP{ID: id}
@@ -75,7 +93,7 @@ func GenFlow(rng *rand.Rand, o GenOpts) *FlowP {
 		// mention types that package can name: types of a third package the
 		// program file does not import, and (through type parameters) local
 		// named integer types. Every other task cannot mention the former.
-		isAux := !o.Modifier && !o.NoOther && rng.Intn(5) == 0
+		isAux := !o.Modifier && !o.NoOther && !f.Generic && rng.Intn(5) == 0
 		okFor := func(ty int) bool {
 			k := f.Types[ty].Kind
 			if isAux {
@@ -161,6 +179,14 @@ func GenFlow(rng *rand.Rand, o GenOpts) *FlowP {
 			}
 			t.Out = append(t.Out, ty)
 		}
+		if f.Generic {
+			// a function that mentions a type parameter can only be written inside the generic function
+			for _, ty := range append(append([]int{}, t.In...), t.Out...) {
+				if f.Types[ty].Kind == TParam {
+					t.Form = FormLiteral
+				}
+			}
+		}
 		f.Tasks = append(f.Tasks, t)
 		avail = append(avail, t.Out...)
 	}
@@ -220,11 +246,15 @@ func Relist(rng *rand.Rand, f *FlowP) *FlowP {
 // GenPar draws a random Parallel program.
 func GenPar(rng *rand.Rand, o GenOpts) *ParP {
 	p := &ParP{OptSeed: rng.Int63(), WrapArgs: rng.Intn(4) != 0, ErrIdent: rng.Intn(3) == 0}
+	p.MutArg = rng.Intn(4) == 0
 	if o.Emitters && rng.Intn(10) < 7 {
 		p.Emitters = 1 + rng.Intn(3)
 		p.EmitNest = p.Emitters >= 2 && rng.Intn(2) == 0
 		p.InstrPar = rng.Intn(4) != 0
 		p.EmitShared = rng.Intn(3) == 0
+		if rng.Intn(5) == 0 {
+			p.Emitters, p.EmitNest, p.EmitSlice = 2, false, true
+		}
 	}
 	switch rng.Intn(5) {
 	case 0, 1:
